@@ -538,6 +538,29 @@ def run_find_send_corr(ctx):
         if impl != ans:
             ctx.mismatch({'comments': [list(c) for c in letters], 'args': arg}, impl, ans, fn)
     ctx.count('find_send_cases', len(reqs))
+    # the same message sent twice in a row through the REAL posting path, for message sizes from a line to a
+    # pasted log (a message that quotes a user's comment is as long as that comment): what the first call posted is
+    # what the second call must recognise.  Statement monitor ("never posts the same message twice in a row") and
+    # model ("send" on the list that holds the first message).
+    sizes = [1, 80, 2000, 33000, 70000] if ctx.quick else [1, 80, 2000, 9000, 33000, 70000, 300000]
+    reqs2, impl2 = [], []
+    for size in sizes:
+        for body in ('x', 'word '):
+            text = '# Unknown command\n\n' + (body * (size // len(body) + 1))[:size] + '\n'
+            for pol in (-1, 1, 2, 10):
+                for between in (None, 'plain text'):
+                    outs, posted = P.send_twice(text, pol, between)
+                    ctx.evaluations += 1
+                    ctx.count('send_twice:size>=%d' % size)
+                    inp = {'message_chars': len(text), 'body': body, 'policy': pol, 'user_comment_between': between}
+                    if outs[0] != 'posted' or posted[:1] != [text]:
+                        ctx.mismatch(inp, [outs[0], [len(p) for p in posted]], ['posted', [len(text)]],
+                                     '_send_comment (what is posted is the message)')
+                    # -1 looks at the robot's last comment, n >= 1 at the last n comments of anybody
+                    if outs[1] != 'suppressed' and (between is None or pol == -1 or pol >= 2):
+                        ctx.violation(inp, 'suppressed', outs[1], '_send_comment posts the same message twice in a row',
+                                      key=core.canon({'what': 'send twice in a row', 'policy': pol,
+                                                      'between': between is not None}))
     # notify_user on every message class of the Facts
     facts = dict(w.split('=', 1) for w in ctx.model.batch(['facts'])[0].split(' '))
     classes = [c.split(':') for c in facts['classes'].split(',')]
